@@ -12,10 +12,22 @@ type ContextSettings struct {
 
 type ContextApply func(c *ContextSettings)
 
+// principalNodeType is the kind of node that a name test (a QName, *, or
+// prefix:*) selects.  It is determined by the axis of the step: attributes for
+// the attribute axis, namespaces for the namespace axis, elements otherwise.
+type principalNodeType int
+
+const (
+	principalElement principalNodeType = iota
+	principalAttribute
+	principalNamespace
+)
+
 type exprContext struct {
 	root             store.Cursor
 	result           Result
 	contextPosition  int
+	principal        principalNodeType
 	builtinFunctions map[XmlName]Function
 	ContextSettings
 }
@@ -38,6 +50,7 @@ func (e *exprContext) copy() exprContext {
 		root:             e.root,
 		result:           e.result,
 		contextPosition:  e.contextPosition,
+		principal:        e.principal,
 		builtinFunctions: builtinFunctions,
 		ContextSettings:  e.ContextSettings,
 	}
